@@ -13,7 +13,7 @@ import ast
 import itertools
 import re
 
-from ..model import AnalysisError, call_name, calls_in, walk_no_nested
+from ..model import AnalysisError, call_name, calls_in, const_value, walk_no_nested
 from ..registry import rule
 
 ET = "ffcx.ir.elementtables"
@@ -42,7 +42,7 @@ def _loop_chain(func_node, call):
 
 @rule(
     "PERM-AXIS",
-    ["C03"],
+    ["C03", "C08"],
     "in build_optimized_tables every permute_quadrature_* call sits in loops whose variables are bound (through "
     "the callee's signature) to `rotations` (outer loop, range 3 for triangles / 4 for quadrilaterals) and "
     "`reflections` (inner loop, range 2), appended in loop order and stacked with vstack, so that stack "
@@ -56,10 +56,20 @@ def perm_axis(repo, res):
     res.functions.add(f.key)
     want = {"permute_quadrature_interval": (None, 2), "permute_quadrature_triangle": (3, 2), "permute_quadrature_quadrilateral": (4, 2)}
     seen = 0
+    # local aliases of the point maps (`permute = permute_quadrature_triangle` chosen per cell type, then one shared loop nest)
+    aliases: dict[str, set[str]] = {}
+    for n in ast.walk(f.node):
+        if isinstance(n, ast.Assign) and len(n.targets) == 1 and isinstance(n.targets[0], ast.Name) and isinstance(n.value, ast.Name) and n.value.id in want:
+            aliases.setdefault(n.targets[0].id, set()).add(n.value.id)
+    sites = []
     for c in calls_in(f.node):
         nm = call_name(c) or ""
-        if nm not in want:
-            continue
+        if nm in want:
+            sites.append((c, nm))
+        elif nm in aliases:
+            for tgt in sorted(aliases[nm]):
+                sites.append((c, tgt))
+    for c, nm in sites:
         seen += 1
         callee = m.func(nm)
         params = callee.params
@@ -106,11 +116,13 @@ def perm_axis(repo, res):
             res.fail(key2, f"{nm}: permuted tables are not appended one by one in loop order", m.line(c))
     if seen < 4:
         raise AnalysisError(f"only {seen} permute_quadrature_* call sites found in build_optimized_tables (4 confirmed)")
+    res.notes.append(f"{seen} (call site, point map) pairs; aliases: {({k: sorted(v) for k, v in aliases.items()})}")
     src = ast.unparse(f.node)
     key = f"{f.key}:vstack"
     res.ob(key)
     n_stack = len(re.findall(r"t\['array'\] = np\.vstack\(\[td\['array'\] for td in new_table\]\)", src))
-    if n_stack < 4 or "t = new_table[0]" not in src:
+    n_call_nodes = len({id(c) for c, _nm in sites})
+    if n_stack < n_call_nodes or "t = new_table[0]" not in src:
         res.fail(key, "permuted tables are not stacked along the first axis in list order", m.line(f.node))
     # axis dropped only under `not is_permuted`
     key = f"{f.key}:axis-drop"
@@ -327,3 +339,247 @@ def perm_flag_impl(repo, res):
                  f"{len(bad)} of {n} admissible cases, e.g. integral_type={ex['integral_type']}, tdim={ex['tdim']}, restrictions={ex['restrictions']}, "
                  f"mixed={ex['is_mixed_dim']}: the kernel reads quadrature_permutation[0] while the descriptor says no permutation is needed "
                  "(f('+')*u('+')*v('+')*dS)", im.line(f.node))
+
+
+# ---- TABLE-INDEX: the two table accessors index every axis consistently with the table flags --------------
+
+def _tv(test, atoms):
+    """Three-valued evaluation of a condition over the atoms (None = unknown)."""
+    if isinstance(test, ast.Constant):
+        return test.value
+    txt = ast.unparse(test)
+    if txt in atoms:
+        return atoms[txt]
+    if isinstance(test, ast.UnaryOp) and isinstance(test.op, ast.Not):
+        v = _tv(test.operand, atoms)
+        return None if v is None else (not v)
+    if isinstance(test, ast.BoolOp):
+        vals = [_tv(v, atoms) for v in test.values]
+        if isinstance(test.op, ast.And):
+            if any(v is False for v in vals):
+                return False
+            return None if any(v is None for v in vals) else True
+        if any(v is True for v in vals):
+            return True
+        return None if any(v is None for v in vals) else False
+    if isinstance(test, (ast.Tuple, ast.List)):
+        vals = [_tv(e, atoms) for e in test.elts]
+        return None if any(v is None for v in vals) else vals
+    if isinstance(test, ast.Compare) and len(test.ops) == 1:
+        a, b = _tv(test.left, atoms), _tv(test.comparators[0], atoms)
+        lk = ast.unparse(test.left) in atoms or isinstance(test.left, ast.Constant)
+        rk = ast.unparse(test.comparators[0]) in atoms or isinstance(test.comparators[0], (ast.Constant, ast.Tuple, ast.List))
+        if not (lk and rk):
+            return None
+        op = test.ops[0]
+        if isinstance(op, ast.Eq):
+            return a == b
+        if isinstance(op, ast.NotEq):
+            return a != b
+        if isinstance(op, ast.In):
+            return a in b
+        if isinstance(op, ast.NotIn):
+            return a not in b
+        if isinstance(op, ast.Is):
+            return a is b
+        if isinstance(op, ast.IsNot):
+            return a is not b
+    return None
+
+
+class _Subst(ast.NodeTransformer):
+    def __init__(self, env, atoms):
+        self.env = env
+        self.atoms = atoms
+
+    def visit_Name(self, n):
+        if isinstance(n.ctx, ast.Load) and n.id in self.env:
+            import copy
+
+            return copy.deepcopy(self.env[n.id])
+        return n
+
+    def visit_IfExp(self, n):
+        v = _tv(n.test, self.atoms)
+        if v is True:
+            return self.visit(n.body)
+        if v is False:
+            return self.visit(n.orelse)
+        return self.generic_visit(n)
+
+    def visit_Subscript(self, n):
+        n = self.generic_visit(n)
+        # fold `(0 if c else 1)` that was resolved above; nothing else to do
+        return n
+
+
+def _index_triples(fnode, atoms):
+    """Enumerate the paths of an accessor under a valuation of the flags; collect the subscripts applied to
+    element_tables[tabledata.name]."""
+    import copy
+
+    found = set()
+
+    def scan(e):
+        for n in ast.walk(e):
+            if not isinstance(n, ast.Subscript):
+                continue
+            slices = []
+            b = n
+            while isinstance(b, ast.Subscript):
+                slices.append(b.slice)
+                b = b.value
+            slices.reverse()
+            if isinstance(b, ast.Attribute) and b.attr == "element_tables" and len(slices) >= 4 and ast.unparse(slices[0]) == "tabledata.name":
+                found.add(tuple(ast.unparse(s) for s in slices[1:4]))
+
+    def sub(e, env):
+        return ast.fix_missing_locations(_Subst(env, atoms).visit(copy.deepcopy(e)))
+
+    def run(stmts, env, depth=0):
+        if depth > 40:
+            raise AnalysisError("TABLE-INDEX: path enumeration too deep")
+        for i, st in enumerate(stmts):
+            if isinstance(st, (ast.Assign, ast.AnnAssign)) and st.value is not None:
+                v = sub(st.value, env)
+                scan(v)
+                tg = st.targets[0] if isinstance(st, ast.Assign) else st.target
+                if isinstance(tg, ast.Name):
+                    env[tg.id] = v
+            elif isinstance(st, ast.If):
+                tv = _tv(sub(st.test, env), atoms)
+                branches = [st.body] if tv is True else [st.orelse] if tv is False else [st.body, st.orelse]
+                results = []
+                for b in branches:
+                    for out in run(b, dict(env), depth + 1):
+                        results += run(stmts[i + 1:], out, depth + 1)
+                return results
+            elif isinstance(st, ast.Return):
+                if st.value is not None:
+                    scan(sub(st.value, env))
+                return []
+            elif isinstance(st, (ast.For, ast.While)):
+                outs = run(st.body, dict(env), depth + 1)
+                if outs:
+                    env = outs[0]
+            elif isinstance(st, ast.Expr):
+                scan(sub(st.value, env))
+            elif isinstance(st, ast.AugAssign):
+                scan(sub(st.value, env))
+        return [env]
+
+    run(fnode.body, {})
+    return found
+
+
+_ZERO = {"0", "L.LiteralInt(0)", "LiteralInt(0)"}
+
+
+@rule(
+    "TABLE-INDEX",
+    ["C02", "C03", "C04", "C08"],
+    "Both table accessors (access.table_access, symbols.element_table) are evaluated path by path under every "
+    "valuation of (is_uniform, is_piecewise, is_permuted, restriction in {None,'+','-'}). The permutation axis is "
+    "indexed with quadrature_permutation[1] for '-' and quadrature_permutation[0] otherwise exactly when the table "
+    "is permuted (an unrestricted argument of a facet expression still needs its permutation), else 0; the entity "
+    "axis is 0 exactly for uniform tables and the (entity_type, restriction) entity otherwise; the point axis is 0 "
+    "exactly for piecewise tables. The reductions in build_optimized_tables collapse the same axes under the same "
+    "flags, and the classification predicates compare all slices along their axis over the full other axes",
+    min_instances=30,
+)
+def table_index(repo, res):
+    sites = [(repo.mod("ffcx.codegeneration.access"), "FFCXBackendAccess.table_access"),
+             (repo.mod("ffcx.codegeneration.symbols"), "FFCXBackendSymbols.element_table")]
+    for m, q in sites:
+        f = m.func(q)
+        res.functions.add(f.key)
+        for uni in (False, True):
+            for pw in (False, True):
+                for perm in (False, True):
+                    for restr in (None, "+", "-"):
+                        atoms = {"tabledata.is_uniform": uni, "tabledata.is_piecewise": pw, "tabledata.is_permuted": perm, "restriction": restr}
+                        key = f"{f.key}:index:uniform={uni},piecewise={pw},permuted={perm},restriction={restr}"
+                        res.ob(key)
+                        triples = _index_triples(f.node, atoms)
+                        if not triples:
+                            raise AnalysisError(f"{q}: no subscript of element_tables[tabledata.name] found on the paths of {atoms}")
+                        for qp, ent, iq in sorted(triples):
+                            if perm:
+                                want = "1" if restr == "-" else "0"
+                                mm = re.fullmatch(r"(?:self\.)?(?:symbols\.)?quadrature_permutation\[(\d)\]", qp)
+                                if not mm or mm.group(1) != want:
+                                    res.fail(key, f"{q}: permuted table indexed with `{qp}` for restriction {restr!r}; the reference-facet permutation of "
+                                             f"side {want} (quadrature_permutation[{want}]) is required - the points of a facet expression or a one-sided "
+                                             "term would be read in the wrong order", m.line(f.node))
+                            elif qp not in _ZERO:
+                                res.fail(key, f"{q}: table without permutation axis indexed with `{qp}`", m.line(f.node))
+                            if uni:
+                                if ent not in _ZERO:
+                                    res.fail(key, f"{q}: uniform table (entity axis collapsed to 1) indexed with `{ent}`", m.line(f.node))
+                            elif not re.search(r"\.entity\(entity_type, restriction\)", ent):
+                                res.fail(key, f"{q}: entity axis indexed with `{ent}` instead of the local entity of this restriction", m.line(f.node))
+                            if pw:
+                                if iq not in _ZERO:
+                                    res.fail(key, f"{q}: piecewise table (point axis collapsed to 1) indexed with `{iq}`", m.line(f.node))
+                            elif iq in _ZERO or not re.search(r"quadrature_index\.global_index|quadrature_loop_index", iq):
+                                res.fail(key, f"{q}: point axis of a varying table indexed with `{iq}` instead of the quadrature index", m.line(f.node))
+    # predicates: slices compared along one axis, other axes full
+    et = repo.mod(ET)
+    for name, axis in (("is_permuted_table", 0), ("is_uniform_table", 1), ("is_piecewise_table", 2)):
+        g = et.func(name)
+        res.functions.add(g.key)
+        key = f"{g.key}:slices"
+        res.ob(key)
+        calls = [c for c in calls_in(g.node) if (call_name(c) or "").endswith("allclose")]
+        gens = [n for n in ast.walk(g.node) if isinstance(n, ast.GeneratorExp)]
+        if len(calls) != 1 or len(gens) != 1 or len(calls[0].args) < 2:
+            raise AnalysisError(f"{name}: comparison not recognised")
+        a, b = calls[0].args[:2]
+        if not (isinstance(a, ast.Subscript) and isinstance(b, ast.Subscript) and isinstance(a.slice, ast.Tuple) and isinstance(b.slice, ast.Tuple)
+                and len(a.slice.elts) == 4 and len(b.slice.elts) == 4):
+            raise AnalysisError(f"{name}: compared operands are not 4-axis slices of the table")
+        gen = gens[0].generators[0]
+        var = gen.target.id if isinstance(gen.target, ast.Name) else None
+        rng = ast.unparse(gen.iter).replace(" ", "")
+        if rng not in (f"range(1,table.shape[{axis}])", f"range(table.shape[{axis}])", f"range(0,table.shape[{axis}])"):
+            res.fail(key, f"{name} iterates `{ast.unparse(gen.iter)}`, not every slice of axis {axis}", et.line(g.node))
+        for k in range(4):
+            ta, tb = ast.unparse(a.slice.elts[k]), ast.unparse(b.slice.elts[k])
+            if k == axis:
+                if {ta, tb} != {"0", var}:
+                    res.fail(key, f"{name} compares `{ta}` with `{tb}` on axis {axis} instead of slice 0 with every other slice", et.line(g.node))
+            elif k == 0 and ta == tb == "0":
+                continue  # classification on the unpermuted slice: the other slices hold the same values at permuted points
+            elif not (ta == tb == ":"):
+                res.fail(key, f"{name} restricts axis {k} to `{ta}`/`{tb}`: constancy along axis {axis} is only established for part of the table, but the "
+                         f"whole axis is collapsed (e.g. d/dX0 on quadrilateral facets is constant on facet 0 only)", et.line(g.node))
+    # reductions
+    b = et.func("build_optimized_tables")
+    res.functions.add(b.key)
+    src = ast.unparse(b.node)
+    for flag, sl, what in ((r"if (\w+) in piecewise_ttypes:", r"\[:, :, :1, :\]", "point"), (r"if (\w+) in uniform_ttypes:", r"\[:, :1, :, :\]", "entity")):
+        key = f"{b.key}:reduce-{what}-axis"
+        res.ob(key)
+        if not re.search(flag + r"\n\s+(\w+) = \2" + sl, src):
+            res.fail(key, f"the {what} axis is not collapsed exactly under its table-type class", et.line(b.node))
+    a = et.func("analyse_table_type")
+    res.functions.add(a.key)
+    key = f"{a.key}:classes"
+    res.ob(key)
+    sa_ = ast.unparse(a.node)
+    if not re.search(r"piecewise = is_piecewise_table\(table", sa_) or not re.search(r"uniform = is_uniform_table\(table", sa_) \
+            or not re.search(r"if piecewise and uniform:\n\s+ttype = 'fixed'\n\s+elif piecewise:\n\s+ttype = 'piecewise'\n\s+elif uniform:\n\s+ttype = 'uniform'\n\s+else:\n\s+ttype = 'varying'", sa_):
+        res.fail(key, "table types are not (fixed, piecewise, uniform, varying) = (both, piecewise only, uniform only, neither)", et.line(a.node))
+    key = f"{et.name}:ttype-classes"
+    res.ob(key)
+    consts = {}
+    for n in et.tree.body:
+        if isinstance(n, ast.Assign) and isinstance(n.targets[0], ast.Name) and n.targets[0].id in ("piecewise_ttypes", "uniform_ttypes"):
+            try:
+                consts[n.targets[0].id] = set(const_value(n.value))
+            except ValueError:
+                raise AnalysisError("ttype class tuples are not literal")
+    if consts.get("piecewise_ttypes", set()) & {"uniform", "varying"} or "piecewise" not in consts.get("piecewise_ttypes", set()) or "fixed" not in consts.get("piecewise_ttypes", set()):
+        res.fail(key, f"piecewise_ttypes = {sorted(consts.get('piecewise_ttypes', []))}", 1)
+    if consts.get("uniform_ttypes", set()) & {"piecewise", "varying"} or "uniform" not in consts.get("uniform_ttypes", set()) or "fixed" not in consts.get("uniform_ttypes", set()):
+        res.fail(key, f"uniform_ttypes = {sorted(consts.get('uniform_ttypes', []))}", 1)
